@@ -182,7 +182,8 @@ def judge(ctx, cls, cfg, s, mon, lock, ok, seen, witness):
     h = hashlib.sha1(repr(s.decisions).encode()).hexdigest()[:16]
     new = h not in seen
     seen.add(h)
-    ctx.case(cls, key=h if s.switches > len(s.ts) else None, nontrivial=s.switches > len(s.ts))
+    ctx.case(cls, key=h if s.switches > len(s.ts) else None, nontrivial=s.switches > len(s.ts),
+             sample=dict(readers=cfg[0], writers=cfg[1], decisions=s.decisions[:80], yield_points=s.steps, occupancy_states=sorted(mon.states), blocked=s.blocked_events, **witness) if ctx.want(cls) and s.switches > len(s.ts) else None)
     ctx.count("yield_points", s.steps)
     ctx.count("context_switches", s.switches)
     ctx.count("blocked_events", s.blocked_events)
